@@ -138,6 +138,15 @@ def run(ctx):
                             except Exception as e:
                                 ctx.violation("C12:%s:compute-error:%s" % (name, C.errkind(e)), "%s.compute() raised %r (%s)" % (name, e, tag), replay)
                                 continue
+                            # a further compute() (as save() issues) must leave the input lazy as well
+                            try:
+                                with dask.config.set(scheduler=getter):
+                                    m.compute()
+                                for key in ("input_data", "input_data1", "input_data2"):
+                                    if key in m.data and not is_lazy(m.data[key]) and name not in ("OPA",):
+                                        ctx.violation("C12:%s:input-loaded-by-second-compute" % name, "%s: data[%r] is an in-memory array after a second compute() (%s)" % (name, key, tag), replay)
+                            except Exception as e:
+                                ctx.violation("C12:%s:second-compute-error:%s" % (name, C.errkind(e)), "%s: a second compute() raised %r (%s)" % (name, e, tag), replay)
                             refv = ref_sv if compute else ref_lazy_sv
                             for kk in refv:
                                 a, b = np.abs(refv[kk]), np.abs(got[kk])
